@@ -1253,7 +1253,15 @@ impl<Sink: TokenSink> Tokenizer<Sink> {
             // hopefully in the same zero-copy buffer.
             states::BeforeAttributeValue => loop {
                 match peek!(self, input) {
-                    '\t' | '\n' | '\r' | '\x0C' | ' ' => go!(self: discard_char input),
+                    '\t' | '\x0C' | ' ' => go!(self: discard_char input),
+                    // Line breaks go through the input preprocessor so that they are normalized
+                    // and counted. If it skipped the LF of a CRLF pair it hands back the character
+                    // after it, which has to be looked at again.
+                    '\n' | '\r' => {
+                        if get_char!(self, input) != '\n' {
+                            self.reconsume.set(true);
+                        }
+                    },
                     '"' => go!(self: discard_char input; to State::AttributeValue(DoubleQuoted)),
                     '\'' => go!(self: discard_char input; to State::AttributeValue(SingleQuoted)),
                     '>' => {
